@@ -27,9 +27,9 @@ WebFromLog(b, lst) == [e \in WEdges(b) |-> IF \E j \in 1..Len(lst) : Edge(lst[j]
 LogOK(b, lst) == /\ \A j \in 1..Len(lst) : Edge(lst[j][1], lst[j][2]) \in WEdges(b) /\ lst[j][3] \in {"X", "Y", "Z"}
                  /\ \A j, k \in 1..Len(lst) : j # k => Edge(lst[j][1], lst[j][2]) # Edge(lst[k][1], lst[k][2])
 
-BipViol(e, pre) ==
+BipViol(e, pre, io) ==
   LET b == FromAbs(e.bip)
-  IN Check1(b.ins = pre.ins /\ b.outs = pre.outs, "BoundaryRestored")
+  IN Check1(io /\ b.ins = pre.ins /\ b.outs = pre.outs, "BoundaryRestored")
      \o Check1(Bipartite(b), "IsBipartite")
      \o Check1(Den(b) = Den(pre), "BipSound")
 BipDrift(e, pre) == Check1(BipCanon(FromAbs(e.bip), pre.vs) = BipCanon(MakeBipartite(pre), pre.vs), "BipAsTranscribed")
@@ -38,8 +38,7 @@ CallViol(e, pre) ==
   IF e.res # "ok" THEN <<<<l, "NoPanic">>>>
   ELSE LET b == FromAbs(e.bip)
            n == Len(e.webs)
-       IN BipViol(e, pre)
-          \o Check1(e.ins = pre.ins /\ e.outs = pre.outs, "BoundaryRestored")
+       IN BipViol(e, pre, e.ins = pre.ins /\ e.outs = pre.outs)
           \o (IF ~(\A i \in 1..n : LogOK(b, e.webs[i])) THEN <<<<l, "WebEdgesExist">>>>
               ELSE LET ws == [i \in 1..n |-> WebFromLog(b, e.webs[i])]
                        A == AllWebsFire(b)
@@ -74,7 +73,7 @@ Step(e) ==
             /\ stats' = CallStats(e)
             /\ UNCHANGED <<cur, cnt0>>
     [] e.k = "bip" ->
-         /\ viol' = (IF e.res # "ok" THEN <<<<l, "NoPanic">>>> ELSE BipViol(e, cur)) \o viol
+         /\ viol' = (IF e.res # "ok" THEN <<<<l, "NoPanic">>>> ELSE BipViol(e, cur, TRUE)) \o viol
          /\ drift' = (IF e.res = "ok" THEN BipDrift(e, cur) ELSE <<>>) \o drift
          /\ stats' = [stats EXCEPT !.bips = @ + 1]
          /\ UNCHANGED <<cur, cnt0>>
